@@ -202,3 +202,64 @@ class FelicaStandardSim(t3t.Type3TagSim):
                 body = b'\x01' + self.sys.to_bytes(2, 'big')
             return bytes([10 + len(body), code + 1]) + self.idm + body
         return t3t.Type3TagSim.execute(self, cmd, ctx)
+
+
+class FelicaStandard2Sim(FelicaStandardSim):
+    """The same card with a second system 8008h (one area, no services).
+    A system is addressed by the upper nibble of IDm[0]; Polling selects by
+    system code (FFFFh: the first system).  Read / Write / Request Service
+    with the IDm of system 1 find no NDEF service there."""
+    KIND = 'T3T-FeliCaStandard-2systems'
+    SYSTEMS = (0x12FC, 0x8008)
+
+    def idm_of(self, k):
+        return bytes([self.idm[0] & 0x0F | k << 4]) + self.idm[1:]
+
+    def execute(self, cmd, ctx):
+        ctx.name = self.name_of(cmd)
+        if len(cmd) < 2 or cmd[0] != len(cmd):
+            return None
+        code = cmd[1]
+        if code == 0x00:
+            if len(cmd) != 6:
+                return None
+            for k, sc in enumerate(self.SYSTEMS):
+                if cmd[2] in (0xFF, sc >> 8) and cmd[3] in (0xFF, sc & 255):
+                    rsp = self.idm_of(k) + self.pmm
+                    if cmd[4] == 1:
+                        rsp += sc.to_bytes(2, 'big')
+                    elif cmd[4] == 2:
+                        rsp += b'\x00\x83'
+                    return bytes([2 + len(rsp), 0x01]) + rsp
+            return None
+        if len(cmd) >= 10 and bytes(cmd[2:10]) == self.idm_of(1):
+            idm1 = self.idm_of(1)
+            p = cmd[10:]
+            if code in (0x06, 0x08):
+                # service not found in this system: status flag 1 = FFh,
+                # status flag 2 = A6h (illegal service code list)
+                return bytes([12, code + 1]) + idm1 + b'\xFF\xA6'
+            if code == 0x02:
+                if len(p) < 1 or len(p) != 1 + 2 * p[0]:
+                    return None
+                body = bytes([p[0]]) + b''.join(
+                    b'\x00\x00' if bytes(p[1 + 2 * i:3 + 2 * i]) ==
+                    b'\x00\x00' else b'\xFF\xFF' for i in range(p[0]))
+            elif code == 0x04:
+                body = b'\x00'
+            elif code == 0x0A:
+                if len(p) != 2:
+                    return None
+                idx = p[0] | p[1] << 8
+                body = b'\x00\x00\xFE\xFF' if idx == 0 else b'\xFF\xFF'
+            elif code == 0x0C:
+                body = bytes([len(self.SYSTEMS)]) + b''.join(
+                    sc.to_bytes(2, 'big') for sc in self.SYSTEMS)
+            else:
+                return None
+            return bytes([10 + len(body), code + 1]) + idm1 + body
+        if code == 0x0C and len(cmd) == 10 and bytes(cmd[2:10]) == self.idm:
+            body = bytes([len(self.SYSTEMS)]) + b''.join(
+                sc.to_bytes(2, 'big') for sc in self.SYSTEMS)
+            return bytes([10 + len(body), code + 1]) + self.idm + body
+        return FelicaStandardSim.execute(self, cmd, ctx)
